@@ -273,9 +273,20 @@ def check(case, rec):
                             cmp_m[idx] = False
                             continue
                         if agg == "corrcoef":
-                            vx, vy = wcov(x, x, ww), wcov(y, y, ww)
+                            # correlation is scale invariant: normalise each column by its magnitude first, so that
+                            # tiny (subnormal) variances do not make the ORACLE imprecise
                             sx = max(abs(t) for t in x)
                             sy = max(abs(t) for t in y)
+                            rvx, rvy = wcov(x, x, ww), wcov(y, y, ww)
+                            if sx == 0 or sy == 0 or not rvx or not rvy or rvx < 1e-280 or rvy < 1e-280:
+                                # zero variance, or a variance that underflows in float64: undefined / ill-conditioned
+                                cmp_m[idx] = False
+                                continue
+                            x = [t / sx for t in x]
+                            y = [t / sy for t in y]
+                            sx = sy = 1.0
+                            c = wcov(x, y, ww)
+                            vx, vy = wcov(x, x, ww), wcov(y, y, ww)
                             # zero variance: undefined; variance at rounding level relative to the
                             # magnitude of the data: ill-conditioned, "within rounding" says nothing
                             if (not vx or not vy or vx <= 1e-18 * sx * sx or vy <= 1e-18 * sy * sy
